@@ -93,10 +93,33 @@ fn check_history(h: &[Tree], label: &str) -> Option<Witness> {
     None
 }
 
+/// depth-3 chains of single-member / negated groups (the shapes the builder rewrites while adding)
+fn chains() -> Vec<Tree> {
+    let mut v = vec![];
+    let leaves = vec![Tree::Atom(0), Tree::Group { any: true, neg: false, kids: vec![Tree::Atom(0), Tree::Atom(1)] }, Tree::Group { any: false, neg: false, kids: vec![] }, Tree::Group { any: true, neg: false, kids: vec![] }];
+    for l in &leaves { for a1 in [false, true] { for n1 in [false, true] { for a2 in [false, true] { for n2 in [false, true] { for a3 in [false, true] { for n3 in [false, true] {
+        let inner = Tree::Group { any: a1, neg: n1, kids: vec![l.clone()] };
+        let mid = Tree::Group { any: a2, neg: n2, kids: vec![inner.clone()] };
+        v.push(Tree::Group { any: a3, neg: n3, kids: vec![mid.clone(), Tree::Atom(2)] });
+        v.push(Tree::Group { any: a3, neg: n3, kids: vec![mid.clone()] });
+        let inner2 = match l { Tree::Group { any, kids, .. } => Tree::Group { any: *any, neg: n1, kids: kids.clone() }, x => x.clone() };
+        let mid2 = Tree::Group { any: a2, neg: n2, kids: vec![inner2] };
+        v.push(Tree::Group { any: a3, neg: n3, kids: vec![mid2.clone(), Tree::Atom(2)] });
+        v.push(mid2);
+    } } } } } } }
+    v
+}
+
 pub fn search(_obl: &str) -> Vec<Witness> {
     std::panic::set_hook(Box::new(|_| {}));
-    let ts = trees(2);
     let mut found = vec![];
+    for (i, c) in chains().iter().enumerate() {
+        if let Some(w) = check_history(&[c.clone()], &format!("chain#{i} = {c:?}")) { found.push(w); if found.len() >= 3 { break; } }
+        if let Some(w) = check_history(&[Tree::Atom(1), c.clone()], &format!("b ; chain#{i} = {c:?}")) { found.push(w); if found.len() >= 3 { break; } }
+        if let Some(w) = check_history(&[Tree::Group { any: true, neg: false, kids: vec![] }, c.clone()], &format!("any[] ; chain#{i} = {c:?}")) { found.push(w); if found.len() >= 3 { break; } }
+    }
+    if !found.is_empty() { return found; }
+    let ts = trees(2);
     if let Some(w) = check_history(&[], "[]") { found.push(w); }
     for (i, a) in ts.iter().enumerate() {
         if let Some(w) = check_history(&[a.clone()], &format!("[{i}] = {a:?}")) { found.push(w); if found.len() >= 6 { return found; } }
@@ -107,6 +130,7 @@ pub fn search(_obl: &str) -> Vec<Witness> {
     found
 }
 pub fn check_one(label: &str) -> Option<Witness> {
+    if label.contains("chain#") { return search("").into_iter().find(|w| w.input == label); }
     let ts = trees(2);
     let idx: Vec<usize> = label.trim_start_matches('[').split(']').next()?.split(',').filter_map(|x| x.trim().parse().ok()).collect();
     let h: Vec<Tree> = idx.iter().filter_map(|&i| ts.get(i).cloned()).collect();
